@@ -2,17 +2,24 @@ module github.com/postalsys/muti-metroo/verifharness
 
 go 1.26
 
-require github.com/postalsys/muti-metroo v0.0.0
+require (
+	github.com/postalsys/muti-metroo v0.0.0
+	golang.org/x/crypto v0.45.0
+	golang.org/x/net v0.47.0
+)
 
 require (
 	github.com/andybalholm/brotli v1.0.6 // indirect
+	github.com/creack/pty v1.1.24 // indirect
+	github.com/dustin/go-humanize v1.0.1 // indirect
 	github.com/klauspost/compress v1.17.4 // indirect
 	github.com/quic-go/quic-go v0.59.0 // indirect
 	github.com/refraction-networking/utls v1.8.2 // indirect
-	golang.org/x/crypto v0.45.0 // indirect
-	golang.org/x/net v0.47.0 // indirect
 	golang.org/x/sys v0.39.0 // indirect
+	golang.org/x/term v0.38.0 // indirect
 	golang.org/x/text v0.31.0 // indirect
+	golang.org/x/time v0.5.0 // indirect
+	gopkg.in/yaml.v3 v3.0.1 // indirect
 	nhooyr.io/websocket v1.8.17 // indirect
 )
 
